@@ -5,6 +5,7 @@ import (
 	"encoding/json"
 	"fmt"
 	"math/rand"
+	"net"
 	"os"
 	"path/filepath"
 	"strings"
@@ -462,6 +463,76 @@ func runC09(c *core.Ctx) {
 	c.Obs("verdict_agrees_with_reference", agree)
 	c.Obs("accepted", acc)
 	c.Obs("rejected", rej)
+	c09Unrecordable(c, fast)
+}
+
+// c09Unrecordable: the inspected directory holds an entry that is not a file, a directory or a
+// symbolic link (a unix socket: a stray one next to the product, or in the product's place). Nothing
+// authorizes such an entry and it cannot be compared with anything a step recorded: verification must
+// not succeed. Control: the same directory without it verifies.
+func c09Unrecordable(c *core.Ctx, fast []gen.KeyPair) {
+	if c.Shard != 6%c.NShards {
+		return
+	}
+	ok := int64(0)
+	for _, dsse := range []bool{false, true} {
+		for _, runDir := range []bool{false, true} {
+			for _, sc := range []string{"control", "stray socket next to the product", "socket in the place of the product"} {
+				id := fmt.Sprintf("unrecordable/%s/dsse=%v/rundir=%v", sc, dsse, runDir)
+				if !c.Want(id) {
+					continue
+				}
+				root := filepath.Join(c.WorkDir, "c09-sock")
+				os.RemoveAll(root)
+				ch, err := gen.NewChain(root, dsse, runDir, fast[0], fast[1], fast[2], Helper(c))
+				if err != nil {
+					continue
+				}
+				_, md, err := ch.WriteLayout("root.layout", ch.Owner)
+				if err != nil {
+					continue
+				}
+				sock := ""
+				switch sc {
+				case "stray socket next to the product":
+					sock = filepath.Join(ch.FinalDir, "debug.sock")
+				case "socket in the place of the product":
+					sock = filepath.Join(ch.FinalDir, "pkg.tar")
+					os.Remove(sock)
+				}
+				if sock != "" {
+					l, lerr := net.ListenUnix("unix", &net.UnixAddr{Name: sock, Net: "unix"})
+					if lerr != nil {
+						c.Inconclusive("harness: cannot create a unix socket")
+						continue
+					}
+					l.SetUnlinkOnClose(false)
+					l.Close()
+				}
+				a := VerifyArgs{Layout: md, Keys: gen.KeyMap(ch.Owner), LinkDir: ch.LinkDir, Cwd: ch.FinalDir}
+				if runDir {
+					a.RunDir, a.Cwd = gen.RunDirName, ch.Root
+				}
+				c.Begin(id)
+				obs := Verify(a)
+				c.End(id)
+				c.Eval(1)
+				detail := map[string]any{"scenario": sc, "dsse": dsse, "rundir": runDir, "directory": listDir(ch.FinalDir), "error": errStr(obs.Err)}
+				reportTrace(c, id, obs, detail)
+				c.Class("unrecordable", sc, dsse, runDir)
+				switch {
+				case sock == "" && !obs.Accepted():
+					c.Violation("control chain rejected: "+core.MsgClass(stripDirs(errStr(obs.Err), root)), id, detail)
+				case sock != "" && obs.Accepted():
+					c.Violation("verification succeeds although the inspected directory holds an entry that no rule authorizes and that cannot be recorded ("+sc+")", id, detail)
+				default:
+					ok++
+				}
+				os.RemoveAll(root)
+			}
+		}
+	}
+	c.Obs("directories_with_unrecordable_entries_as_expected", ok)
 }
 
 func reasonClass(r string) string {
@@ -475,7 +546,7 @@ func init() {
 	core.Register(&core.Property{
 		ID:    "C09",
 		Level: "exploration",
-		Rule: "seeded cases: final-product directory = the last step's products with files {untouched, added, added under a name of the kind tools like to ignore (*.pyc, *~, .git, .DS_Store...), added under a non-ASCII name that a DISALLOW *.evil rule must catch, removed, modified, modified in line endings only, a 150 KB product whose CR LF pairs straddle 4 KiB ... 128 KiB block boundaries where the step recorded LF (the same file under normalisation) or LF LF (another file)}, in a quarter of the cases plus a symlink to a directory that sorts first; 0-3 inspections (every 19th case: a first inspection without any rule, then at least one more) whose command is `vhelper inspect` with an action from {no-op, create / modify / delete a file, replace a file by other content of the same size with its modification time restored, exit 1/2/127/255, kill 9/15} or a missing / non-executable program; inspection rule lists drawn from a 20-24-rule vocabulary (incl. REQUIRE with names that would match as patterns) (MATCH against the last step's products/materials with and without IN <run dir>, against an earlier inspection, ALLOW/DISALLOW/REQUIRE/CREATE/MODIFY/DELETE with run-dir-prefixed names) + terminal DISALLOW *; step link recorded with sha256 / sha256+sha512 / sha512 only; step-phase defect in 1/7 of the cases; entry points plain, run dir relative (a fifth of these named through a symbolic link to its parent), run dir absolute; both wrappers; line normalisation on in 1/3. Oracle: reference rule interpreter over the directory snapshots the command itself logged (before/after, raw or normalised digests) and the step links; execution order / exactly once / not after a failing command / not before the step checks from the log and the inspection_exec events. " +
+		Rule: "seeded cases: final-product directory = the last step's products with files {untouched, added, added under a name of the kind tools like to ignore (*.pyc, *~, .git, .DS_Store...), added under a non-ASCII name that a DISALLOW *.evil rule must catch, removed, modified, modified in line endings only, a 150 KB product whose CR LF pairs straddle 4 KiB ... 128 KiB block boundaries where the step recorded LF (the same file under normalisation) or LF LF (another file)}, in a quarter of the cases plus a symlink to a directory that sorts first; 0-3 inspections (every 19th case: a first inspection without any rule, then at least one more) whose command is `vhelper inspect` with an action from {no-op, create / modify / delete a file, replace a file by other content of the same size with its modification time restored, exit 1/2/127/255, kill 9/15} or a missing / non-executable program; inspection rule lists drawn from a 20-24-rule vocabulary (incl. REQUIRE with names that would match as patterns) (MATCH against the last step's products/materials with and without IN <run dir>, against an earlier inspection, ALLOW/DISALLOW/REQUIRE/CREATE/MODIFY/DELETE with run-dir-prefixed names) + terminal DISALLOW *; step link recorded with sha256 / sha256+sha512 / sha512 only; step-phase defect in 1/7 of the cases; entry points plain, run dir relative (a fifth of these named through a symbolic link to its parent), run dir absolute; both wrappers; line normalisation on in 1/3. Plus: a unix socket next to / in the place of the final product (must not verify; control verifies). Oracle: reference rule interpreter over the directory snapshots the command itself logged (before/after, raw or normalised digests) and the step links; execution order / exactly once / not after a failing command / not before the step checks from the log and the inspection_exec events. " +
 			"non-trivial = at least one inspection; distinct = hash of the whole case",
 		Assumptions: []string{"an empty run list is not generated (the statement does not say what should happen)", "the snapshot taken inside the command equals what the library records directly before/after it"},
 		Workers:     func(string) int { return 16 },
